@@ -27,8 +27,8 @@ func TestDrive(t *testing.T) {
 	det := lib.EnvStr("VERIF_DET", "") != ""
 	for _, s := range scheds {
 		lib.SeedCryptoRand(s.ID)
-		w := NewWorld(t, s.Kind, s.TP, s.Opt)
-		init := TraceLine{Tr: s.ID, I: 0, Kind: s.Kind, TP: s.TP, A: json.RawMessage(`{"a":"Init","c":"A","dt":0}`), Res: "ok", St: w.State()}
+		w := NewWorld(t, s.Kind, s.TP, s.Opt, s.Ska, s.Skb)
+		init := TraceLine{Tr: s.ID, I: 0, Kind: s.Kind, TP: s.TP, Ska: s.Ska, Skb: s.Skb, A: json.RawMessage(`{"a":"Init","c":"A","dt":0}`), Res: "ok", St: w.State()}
 		if det {
 			init.Det = w.Det()
 		}
@@ -39,7 +39,7 @@ func TestDrive(t *testing.T) {
 				t.Fatalf("schedule %s step %d: %v", s.ID, i+1, err)
 			}
 			res, errStr := w.Exec(a)
-			tl := TraceLine{Tr: s.ID, I: i + 1, Kind: s.Kind, TP: s.TP, A: raw, Res: res, Err: errStr, St: w.State()}
+			tl := TraceLine{Tr: s.ID, I: i + 1, Kind: s.Kind, TP: s.TP, Ska: s.Ska, Skb: s.Skb, A: raw, Res: res, Err: errStr, St: w.State()}
 			if det {
 				tl.Det = w.Det()
 			}
